@@ -26,14 +26,21 @@
   THEOREM (T) `vm_total_wf_partial`: if `safeCheck` accepts the code then, from `execute`'s initial
   state, for every input, every context (cancelled at any poll or never), every sequence of native
   answers that contains no closure and no empty `[]pathValue` (`ExtClean`), every fuel and every
-  number of `Next` calls, no call ends in a panic at one of the NINE covered sites
-    stackPop, scopesPop, scopesData, valuesIndex, argsSlice, xsIndex, uncomparable, codesIndex, badOp
+  number of `Next` calls, no call ends in a panic at one of the TWELVE covered sites
+    stackPop, scopesPop, scopesData, valuesIndex, argsSlice, xsIndex, uncomparable, codesIndex, badOp,
+    pathsPop, assertPathValue, assertInt
   as long as the calls before it ended properly (value, error, `(nil, false)`, context error).
+  For the three sites of the paths stack the checker also tracks the number of `pathbegin`s an
+  activation has open (`pathend` needs one; the paths stack is then a sequence of segments: path
+  entries over the marker `pathValue{nil, v}` over the saved `expdepth`), requires the constant key
+  of `opindex` to be non-nil, and the theorem ASSUMES of the natives what `KeysOK` says: at every
+  turn of the run, `_index(x; k)` answers a value only for a non-null `k`, and `getpath(p)` only for
+  an array `p` without null (both raise `expected … but got: null` otherwise) — a nil path pushed
+  in path-tracking mode would be taken for the marker.
   NOT covered (the full statement is `vm_total_wf_statement`): `envIndex`, `assertClosure`,
-  `assertArray` (they need a flow-sensitive kind discipline for variable slots across backtracking:
-  `_assign` re-uses one slot for a closure and then its value) and `pathsPop`, `assertPathValue`,
-  `assertInt` (the paths-stack discipline between `pathbegin` and `pathend`, which also needs the
-  oracle assumption that `_index`/`getpath` never answer a value for a null key).
+  `assertArray` — they need a flow-sensitive kind discipline for variable slots across backtracking
+  (`_assign`/`_modify` re-use one slot for a closure and then a value), liveness of the frame a
+  closure points at, and the static scope chains.
   TIE (V): `safe_check_on_dump` — the `safe` stream of the C04 check runs `safeCheckView` (this very
   checker, on the dumped instruction syntax) on every real program: the code with no whole-code pass,
   with the tail-call pass only, and fully optimised (≈ 434 k instruction lists per quick run, the
@@ -53,7 +60,8 @@ def ExtClean (ext : Nat → ExtRec) : Prop := ∀ k, ExtOK (ext k)
 theorem covered_sites :
     [Site.stackPop, .pathsPop, .scopesPop, .scopesData, .envIndex, .valuesIndex, .assertArray, .assertClosure,
       .assertPathValue, .assertInt, .argsSlice, .xsIndex, .uncomparable, .codesIndex, .badOp].filter covered =
-    [.stackPop, .scopesPop, .scopesData, .valuesIndex, .argsSlice, .xsIndex, .uncomparable, .codesIndex, .badOp] := by
+    [.stackPop, .pathsPop, .scopesPop, .scopesData, .valuesIndex, .assertPathValue, .assertInt, .argsSlice,
+      .xsIndex, .uncomparable, .codesIndex, .badOp] := by
   decide
 
 /-- The check that the `safe` stream runs on a dumped instruction list is the check on the
@@ -81,22 +89,25 @@ def ctxOf (nvars : Nat) (c : Array Instr) : SC := ⟨c.map shape, nvars, infer (
     entry, every frame's slots lie inside `values`) either yields a state that satisfies it again,
     or panics at an UNCOVERED site, or leaves the model (`stuck`). -/
 theorem every_opcode_keeps_invariant (nvars : Nat) (c : Array Instr) (h : safeCheckN nvars c = true)
-    (ins : Instr) (x : ExtRec) (hx : ExtOK x) (l : L) (e : Env)
+    (ins : Instr) (x : ExtRec) (hx : ExtOK x) (l : L) (e : Env) (hk : keyOK ins (stackList e.stack) x)
     (hc : codeAt (ctxOf nvars c) l.pc = some (shape ins)) (hI : Inv (ctxOf nvars c) l e) :
     match exec ins x l e with
     | .ok r e' => Post (ctxOf nvars c) r e'
     | .panic site => covered site = false
     | .stuck _ => True := by
-  have := exec_post (checked_of_verify (S := ctxOf nvars c) h) ins hx hc hI
+  have := exec_post (checked_of_verify (S := ctxOf nvars c) h) ins hx hk hc hI
   unfold WP at this
   cases hex : exec ins x l e <;> rw [hex] at this <;> exact this
 
-/-- ONE CALL of `Next` from a state between calls: it does not end in a covered panic, and if it ends
-    properly the state it leaves is again a state between calls. -/
+/-- ONE CALL of `Next` from a state between calls (reached from `s0` by calls that ended properly):
+    it does not end in a covered panic, and if it ends properly the state it leaves is again such a
+    state. -/
 theorem every_call_keeps_invariant (nvars : Nat) (P : Params) (h : safeCheckN nvars P.code = true)
-    (hext : ExtClean P.ext) (fuel : Nat) (s : St) (hB : Between (ctxOf nvars P.code) P s) :
-    NoCov (next P fuel s).1 ∧ (Proper (next P fuel s).1 → Between (ctxOf nvars P.code) P (next P fuel s).2) :=
-  next_inv (checked_of_verify (S := ctxOf nvars P.code) h) rfl hext fuel s hB
+    (hext : ExtClean P.ext) (s0 : St) (hkeys : KeysOK P s0) (fuel : Nat) (s : St)
+    (hR : Reach P s0 (entry P s) s) (hB : Between (ctxOf nvars P.code) P s) :
+    NoCov (next P fuel s).1 ∧ (Proper (next P fuel s).1 →
+      Between (ctxOf nvars P.code) P (next P fuel s).2 ∧ Reach P s0 (entry P (next P fuel s).2) (next P fuel s).2) :=
+  next_inv (checked_of_verify (S := ctxOf nvars P.code) h) rfl hext hkeys fuel s hR hB
 
 theorem SafeHist.get : ∀ {hs : List Outcome}, SafeHist hs → ∀ (k : Nat) (hk : k < hs.length),
     (∀ (j : Nat) (hj : j < k), Proper (hs[j]'(Nat.lt_trans hj hk))) → NoCov hs[k]
@@ -111,20 +122,21 @@ theorem SafeHist.get : ∀ {hs : List Outcome}, SafeHist hs → ∀ (k : Nat) (h
 
 /-- (T) WHOLE RUNS.  If the checker accepts the code of `P` (compiled with `nvars` variables) then
     from `execute`'s initial state on any input and variable values (free of closures), under ANY
-    context `P.cancelled` and any clean oracle of native answers `P.ext`, for every fuel and every
-    number `n` of successive `Next` calls: the `k`-th call does not end in a panic at a covered site,
+    context `P.cancelled` and any clean oracle of native answers `P.ext` that respects null keys
+    (`KeysOK`), for every fuel and every number `n` of successive `Next` calls: the `k`-th call does not end in a panic at a covered site,
     provided the calls before it ended properly (value / error / `(nil, false)` / context error —
     after a panic at an uncovered site, a gap of the model or its loop bound nothing is claimed). -/
 theorem vm_total_wf_partial (nvars : Nat) (P : Params) (h : safeCheckN nvars P.code = true)
     (hext : ExtClean P.ext) (input : V) (vars : List V) (hi : vpure input = true)
-    (hv : ∀ v ∈ vars, vpure v = true) (hn : vars.length = nvars) (fuel n : Nat)
+    (hv : ∀ v ∈ vars, vpure v = true) (hn : vars.length = nvars) (hkeys : KeysOK P (initSt input vars))
+    (fuel n : Nat)
     (k : Nat) (hk : k < (history P fuel n (initSt input vars)).length)
     (hprev : ∀ (j : Nat) (hj : j < k), Proper ((history P fuel n (initSt input vars))[j]'(Nat.lt_trans hj hk)))
     (site : Site) (hs : covered site = true) :
     (history P fuel n (initSt input vars))[k] ≠ .panic site := by
   have C := checked_of_verify (S := ctxOf nvars P.code) h
   have hB := between_init C (P := P) rfl input vars hi hv hn
-  have hS := history_safe C (P := P) rfl hext fuel n _ hB
+  have hS := history_safe C (P := P) rfl hext hkeys fuel n _ Reach.init hB
   have := SafeHist.get hS k hk hprev
   intro heq
   rw [heq] at this
@@ -135,17 +147,18 @@ theorem vm_total_wf_partial (nvars : Nat) (P : Params) (h : safeCheckN nvars P.c
 /-- … in particular the FIRST call never ends in a covered panic, for programs without variables
     run on a JSON input. -/
 theorem first_call_no_covered_panic (P : Params) (h : safeCheck P.code = true) (hext : ExtClean P.ext)
-    (input : JV) (fuel : Nat) (site : Site) (hs : covered site = true) :
+    (input : JV) (hkeys : KeysOK P (initSt (.jv input) [])) (fuel : Nat) (site : Site) (hs : covered site = true) :
     (next P fuel (initSt (.jv input) [])).1 ≠ .panic site := by
-  have := vm_total_wf_partial 0 P h hext (.jv input) [] rfl (fun v hv => by simp at hv) rfl fuel 1 0
+  have := vm_total_wf_partial 0 P h hext (.jv input) [] rfl (fun v hv => by simp at hv) rfl hkeys fuel 1 0
     (by simp [history]) (fun j hj => by omega) site hs
   simpa [history] using this
 
 /-- THE FULL STATEMENT (not proved): the same for EVERY panic site.  Open: `envIndex`,
-    `assertClosure`, `assertArray`, `pathsPop`, `assertPathValue`, `assertInt` (see the header). -/
+    `assertClosure`, `assertArray` (see the header). -/
 def vm_total_wf_statement : Prop :=
   ∀ (nvars : Nat) (P : Params), safeCheckN nvars P.code = true → ExtClean P.ext →
   ∀ (input : V) (vars : List V), vpure input = true → (∀ v ∈ vars, vpure v = true) → vars.length = nvars →
+  KeysOK P (initSt input vars) →
   ∀ (fuel n k : Nat) (hk : k < (history P fuel n (initSt input vars)).length),
     (∀ (j : Nat) (hj : j < k), Proper ((history P fuel n (initSt input vars))[j]'(Nat.lt_trans hj hk))) →
     ∀ site, (history P fuel n (initSt input vars))[k] ≠ .panic site
@@ -163,6 +176,37 @@ theorem json_answers_clean (ext : Nat → ExtRec)
   unfold ExtOK
   split at this <;> simp_all [vpure, epure]
 
+/-- `KeysOK` holds for every oracle when the code calls neither `_index` nor `getpath` (constant
+    keys are compiled to `opindex`, whose key the checker requires to be non-nil) … -/
+theorem keysOK_of_no_key_natives (P : Params) (s0 : St)
+    (h : ∀ ins ∈ P.code.toList, ∀ n, ins ≠ .callNative .index n ∧ ins ≠ .callNative .getpath n) : KeysOK P s0 := by
+  intro l s _
+  have hmem : P.code.getD l.pc.toNat .bad = .bad ∨ P.code.getD l.pc.toNat .bad ∈ P.code.toList := by
+    unfold Array.getD
+    split
+    · right; simp
+    · left; rfl
+  unfold keyOK
+  split
+  · rename_i n w hins _
+    rcases hmem with hm | hm
+    · rw [hm] at hins; cases hins
+    · exact absurd hins (h _ hm n).1
+  · rename_i n w hins _
+    rcases hmem with hm | hm
+    · rw [hm] at hins; cases hins
+    · exact absurd hins (h _ hm n).2
+  · trivial
+
+/-- … and for every code when the oracle never answers a value (e.g. no native call is made) -/
+theorem keysOK_of_no_values (P : Params) (s0 : St) (h : ∀ k w, (P.ext k).call ≠ some (.val w)) : KeysOK P s0 := by
+  intro l s _
+  unfold keyOK
+  split
+  · rename_i hc; exact absurd hc (h _ _)
+  · rename_i hc; exact absurd hc (h _ _)
+  · trivial
+
 /-! ### non-vacuity: real bytecode (dumped from the real compiler; constants replaced by `null`,
     which the checker does not read) -/
 
@@ -170,7 +214,7 @@ theorem json_answers_clean (ext : Nat → ExtRec)
 def codeIter : Array Instr := #[.scope 1 0 0, .iter, .ret]
 /-- `.a as $x | $x` -/
 def codeAs : Array Instr :=
-  #[.scope 1 1 0, .dup, .expbegin, .index .null, .store 1 0, .expend, .pop, .load 1 0, .ret]
+  #[.scope 1 1 0, .dup, .expbegin, .index (.str [97]), .store 1 0, .expend, .pop, .load 1 0, .ret]
 /-- `def f: 1; f` -/
 def codeCall : Array Instr := #[.scope 1 0 0, .jump 5, .scope 2 0 0, .const .null, .ret, .call 2, .ret]
 /-- `reduce .[] as $x (0; . + $x)` -/
@@ -185,7 +229,7 @@ def codeLabel : Array Instr :=
 def codeTry : Array Instr := #[.scope 1 0 0, .forktrybegin 5, .callNative .other 0, .forktryend, .nop, .ret]
 /-- `path(.a)` -/
 def codePath : Array Instr :=
-  #[.scope 1 1 0, .pathbegin, .store 1 0, .load 1 0, .index .null, .load 1 0, .pathend, .ret]
+  #[.scope 1 1 0, .pathbegin, .store 1 0, .load 1 0, .index (.str [97]), .load 1 0, .pathend, .ret]
 /-- `def f(g): g | g; f(.[])` — closures -/
 def codeClosure : Array Instr :=
   #[.scope 1 1 0, .jump 11, .scope 2 2 1, .store 2 0, .store 2 1, .load 2 0, .load 2 1, .callpc, .load 2 1, .callpc,
@@ -199,7 +243,7 @@ def codeModify : Array Instr :=
     .load 2 1, .load 2 0, .callNative .getpath 2, .load 2 2, .callpc, .expend, .callNative .other 3, .store 2 0,
     .load 2 0, .fork 39, .jump 43, .load 2 5, .callNative .other 0, .load 2 1, .append 2 3, .backtrack, .pop,
     .load 2 4, .load 2 3, .load 2 0, .callNative .other 2, .ret, .store 1 0, .jump 59, .scope 3 1 0, .store 3 0,
-    .push .null, .load 3 0, .load 3 0, .callNative .other 2, .ret, .pushpc 52, .jump 64, .scope 6 0 0, .index .null,
+    .push .null, .load 3 0, .load 3 0, .callNative .other 2, .ret, .pushpc 52, .jump 64, .scope 6 0 0, .index (.str [97]),
     .ret, .pushpc 61, .load 1 0, .call 2, .ret]
 
 -- the checker accepts them …
@@ -225,7 +269,8 @@ example (fuel n k : Nat) (hk : k < (history ⟨codeIter, never, noExt⟩ fuel n 
       Proper ((history ⟨codeIter, never, noExt⟩ fuel n (initSt (.jv arr12) []))[j]'(Nat.lt_trans hj hk))) :
     (history ⟨codeIter, never, noExt⟩ fuel n (initSt (.jv arr12) []))[k] ≠ .panic .stackPop :=
   vm_total_wf_partial 0 ⟨codeIter, never, noExt⟩ (by decide +kernel) noExt_clean (.jv arr12) [] rfl
-    (fun v hv => by simp at hv) rfl fuel n k hk hprev .stackPop rfl
+    (fun v hv => by simp at hv) rfl (keysOK_of_no_values _ _ (fun k w h => by simp [noExt] at h)) fuel n k hk hprev
+    .stackPop rfl
 
 /-! ### the checker rejects what panics: witnesses -/
 
@@ -241,6 +286,17 @@ def codeBadSlot : Array Instr := #[.scope 1 0 0, .load 1 3, .ret]
 theorem bad_slot_rejected_and_panics :
     safeCheck codeBadSlot = false ∧
     oTag (next ⟨codeBadSlot, never, noExt⟩ 50 (initSt (.jv .null) [])).1 = 4 := by decide +kernel
+
+/-- `pathend` without an open `pathbegin`: rejected, and `env.paths.top()` panics on the empty paths stack -/
+def codePathendAlone : Array Instr := #[.scope 1 0 0, .dup, .pathend, .ret]
+theorem pathend_alone_rejected_and_panics :
+    safeCheck codePathendAlone = false ∧
+    oTag (next ⟨codePathendAlone, never, noExt⟩ 50 (initSt (.jv .null) [])).1 = 4 := by decide +kernel
+
+/-- an `opindex` with a nil key (never emitted: constant keys are strings and integers) is rejected:
+    in path-tracking mode it would push a second marker -/
+def codeNilKey : Array Instr := #[.scope 1 0 0, .index .null, .ret]
+example : safeCheck codeNilKey = false := by decide +kernel
 
 /-- a jump into a function body (a `scope` reached without a call): rejected -/
 def codeJumpIntoEntry : Array Instr := #[.scope 1 0 0, .jump 2, .scope 2 0 0, .ret]
